@@ -79,7 +79,7 @@ def params(ctx=None, values=None):
     return v
 
 
-def pairs_for(case, V, mk):
+def pairs_for(case, V, mk, only_impl=False):
     """Run the real CrossSection for one (kind, flavour, projectile) on parameters V."""
     from yadism import observable_name as on
     from yadism.xs import CrossSection
@@ -99,6 +99,8 @@ def pairs_for(case, V, mk):
     xs.load([kin_prev, kin])
     res = xs.get_result()[1]
     res_again = xs.get_result()[1]
+    if only_impl:  # C16 executes the implementation alone (on the strata where the oracle formula itself is singular)
+        return [res, res_again]
     runner.requests = [r for r in runner.requests if r[1].get("x") is not kin_prev["x"]]
     out = []
     if kind == "g5":
